@@ -286,6 +286,12 @@ def TemplateThm (id : String) : Prop :=
   else if id = "ampm_short" then
     (∀ (cls : Char → CClass) [AsciiOK cls] (yf : Bool) (year century : Int) (o : Opts) (tznames : List Token) (tzi : TzInfos) (ho : StrictOpts o tzi) (hdf : o.dayfirst.getD false = false) (t dflt : DT) (ht : t.Valid) (hdv : dflt.Valid) (off : Off) (hoff : off.Dom) (hsp : off.Spaced),
       parse cls (Info.default false yf year century) o tznames tzi dflt (str_ampm_short t off.render) = .ok { dt := { t with ss := dflt.ss, us := dflt.us }, tz := offZone o tznames off, tokens := none })
+  else if id = "ampm_hour" then
+    (∀ (cls : Char → CClass) [AsciiOK cls] (yf : Bool) (year century : Int) (o : Opts) (tznames : List Token) (tzi : TzInfos) (ho : StrictOpts o tzi) (hdf : o.dayfirst.getD false = false) (t dflt : DT) (ht : t.Valid) (hdv : dflt.Valid) (off : Off) (hoff : off.Dom) (hsp : off.Spaced),
+      parse cls (Info.default false yf year century) o tznames tzi dflt (str_ampm_hour t off.render) = .ok { dt := { t with mm := dflt.mm, ss := dflt.ss, us := dflt.us }, tz := offZone o tznames off, tokens := none })
+  else if id = "ampm_hour_tight" then
+    (∀ (cls : Char → CClass) [AsciiOK cls] (yf : Bool) (year century : Int) (o : Opts) (tznames : List Token) (tzi : TzInfos) (ho : StrictOpts o tzi) (hdf : o.dayfirst.getD false = false) (t dflt : DT) (ht : t.Valid) (hdv : dflt.Valid) (off : Off) (hoff : off.Dom) (hsp : off.Spaced),
+      parse cls (Info.default false yf year century) o tznames tzi dflt (str_ampm_hour_tight t off.render) = .ok { dt := { t with mm := dflt.mm, ss := dflt.ss, us := dflt.us }, tz := offZone o tznames off, tokens := none })
   else if id = "ampm_hms_sp" then
     (∀ (cls : Char → CClass) [AsciiOK cls] (yf : Bool) (year century : Int) (o : Opts) (tznames : List Token) (tzi : TzInfos) (ho : StrictOpts o tzi) (hdf : o.dayfirst.getD false = false) (t dflt : DT) (ht : t.Valid) (hdv : dflt.Valid) (off : Off) (hoff : off.Dom) (hsp : off.Spaced),
       parse cls (Info.default false yf year century) o tznames tzi dflt (str_ampm_hms_sp t off.render) = .ok { dt := { t with us := 0 }, tz := offZone o tznames off, tokens := none })
@@ -423,7 +429,7 @@ def TemplateThm (id : String) : Prop :=
 theorem proved_templates_have_theorems : ∀ p ∈ provedTemplates, TemplateThm p.1 := by
   intro p hp
   simp only [provedTemplates, List.mem_cons, List.mem_nil_iff, or_false] at hp
-  rcases hp with rfl | rfl | rfl | rfl | rfl | rfl | rfl | rfl | rfl | rfl | rfl | rfl | rfl | rfl | rfl | rfl | rfl | rfl | rfl | rfl | rfl | rfl | rfl | rfl | rfl | rfl | rfl | rfl | rfl | rfl | rfl | rfl | rfl | rfl | rfl | rfl | rfl | rfl | rfl | rfl | rfl | rfl
+  rcases hp with rfl | rfl | rfl | rfl | rfl | rfl | rfl | rfl | rfl | rfl | rfl | rfl | rfl | rfl | rfl | rfl | rfl | rfl | rfl | rfl | rfl | rfl | rfl | rfl | rfl | rfl | rfl | rfl | rfl | rfl | rfl | rfl | rfl | rfl | rfl | rfl | rfl | rfl | rfl | rfl | rfl | rfl | rfl | rfl
   · show TemplateThm "us_slash"
     simp only [TemplateThm]
     exact fun cls _ yf year century o tznames tzi ho hdf hyf t dflt ht hdv off hoff => tpl_us_slash cls yf year century o tznames tzi ho hdf hyf t dflt ht hdv off hoff
@@ -454,6 +460,12 @@ theorem proved_templates_have_theorems : ∀ p ∈ provedTemplates, TemplateThm 
   · show TemplateThm "ampm_short"
     simp only [TemplateThm]
     exact fun cls _ yf year century o tznames tzi ho hdf t dflt ht hdv off hoff hsp => tpl_ampm_short cls yf year century o tznames tzi ho hdf t dflt ht hdv off hoff hsp
+  · show TemplateThm "ampm_hour"
+    simp only [TemplateThm]
+    exact fun cls _ yf year century o tznames tzi ho hdf t dflt ht hdv off hoff hsp => tpl_ampm_hour cls yf year century o tznames tzi ho hdf t dflt ht hdv off hoff hsp
+  · show TemplateThm "ampm_hour_tight"
+    simp only [TemplateThm]
+    exact fun cls _ yf year century o tznames tzi ho hdf t dflt ht hdv off hoff hsp => tpl_ampm_hour_tight cls yf year century o tznames tzi ho hdf t dflt ht hdv off hoff hsp
   · show TemplateThm "ampm_hms_sp"
     simp only [TemplateThm]
     exact fun cls _ yf year century o tznames tzi ho hdf t dflt ht hdv off hoff hsp => tpl_ampm_hms_sp cls yf year century o tznames tzi ho hdf t dflt ht hdv off hoff hsp
